@@ -325,7 +325,9 @@ type verdict struct {
 // judgeRequest compares what the backend saw with the sent request under the declared rewrites.
 func judgeRequest(rc *routeCfg, g *genReq, userIP string, sr *seenReq) []verdict {
 	var out []verdict
-	bad := func(key, f string, a ...any) { out = append(out, verdict{key + "-via-" + rc.Kind, fmt.Sprintf(f, a...)}) }
+	bad := func(key, f string, a ...any) {
+		out = append(out, verdict{key + "-via-" + rc.Kind, fmt.Sprintf(f, a...)})
+	}
 	okBackend := false
 	for _, id := range rc.Backends {
 		if id == sr.Backend {
@@ -449,7 +451,9 @@ func judgeRequest(rc *routeCfg, g *genReq, userIP string, sr *seenReq) []verdict
 // judgeResponseHead compares status and headers at the user with what the backend wrote.
 func judgeResponseHead(rc *routeCfg, g *genReq, resp *http.Response) []verdict {
 	var out []verdict
-	bad := func(key, f string, a ...any) { out = append(out, verdict{key + "-via-" + rc.Kind, fmt.Sprintf(f, a...)}) }
+	bad := func(key, f string, a ...any) {
+		out = append(out, verdict{key + "-via-" + rc.Kind, fmt.Sprintf(f, a...)})
+	}
 	p := g.Plan
 	if resp.StatusCode != p.Status {
 		bad("resp-status-changed", "backend answered %d, user received %d", p.Status, resp.StatusCode)
